@@ -4,6 +4,7 @@ go 1.23.4
 
 require (
 	github.com/anishathalye/porcupine v1.3.0
+	github.com/gcash/bchd v0.20.0
 	github.com/gcash/bchutil v0.0.0
 	golang.org/x/crypto v0.32.0
 )
@@ -13,7 +14,6 @@ require (
 	github.com/aead/siphash v1.0.1 // indirect
 	github.com/btcsuite/go-socks v0.0.0-20170105172521-4720035b7bfd // indirect
 	github.com/dchest/siphash v1.2.3 // indirect
-	github.com/gcash/bchd v0.20.0 // indirect
 	github.com/gcash/bchlog v0.0.0-20180913005452-b4f036f92fa6 // indirect
 	github.com/golang/protobuf v1.5.4 // indirect
 	github.com/kkdai/bstream v1.0.0 // indirect
